@@ -21,6 +21,11 @@ What is proved instead:
 * inside the decidable guard `Strict` (Model/C02.lean): every cycle of every run, for all inputs
   and every budget, ends in success or a value-dependent fault, never a static-class error or a
   panic (`c01_progress_partial`, `c01_every_cycle_partial`).
+
+The fragment of these theorems is stages S1–S3: elementary BOOL/integer variables, every
+statement form, and (S3) one-dimensional arrays and flat structs of the PROGRAM with subscripted /
+field reads and writes (`Expr.idx`, `Expr.fld`, `Stmt.assignIdx`, `Stmt.assignFld`).  Calls
+(S4/S5, `Model/StExt.lean`) have the frame theorems only.
 -/
 namespace TrustVerif.StCore
 
@@ -42,7 +47,7 @@ theorem c01_fault_classes (e : RustErr) :
 
 /-- **No call frame is left behind — every program, every exit path.**  Whatever the program
 (accepted or not), the store, the budget and the way the cycle ends (completion, fault, budget,
-a stray EXIT/CONTINUE/RETURN reaching the program level), `execute_program` pops exactly the frame
+a stray EXIT/CONTINUE reaching the program level), `execute_program` pops exactly the frame
 it pushed. -/
 theorem c01_frames_balanced (p : Program) (fuel : Nat) (st : RunState) :
     (cycle .real p fuel st).1.store.frames = st.store.frames :=
@@ -142,12 +147,11 @@ theorem c01_counterexample_neg_unsigned :
     Wit.negUnsigned.accepted = true ∧
     (Wit.firstCycle Wit.negUnsigned).1 = some (.fault .TypeMismatch .negUnsigned) := by decide +kernel
 
-/-- **Counterexample (`RETURN` in a PROGRAM).**  Accepted (docs/specs/06 §6: early exit); the
-cycle ends in `InvalidControlFlow` after `x := 1` ran. -/
-theorem c01_counterexample_return :
-    Wit.returnInProgram.accepted = true ∧
-    Wit.firstCycle Wit.returnInProgram =
-      (some (.fault .InvalidControlFlow .programFlow), [("x", .i .dint 1)]) := by decide +kernel
+/-- **Regression fact (`RETURN` in a PROGRAM, fixed in f3b5b76).**  The program is accepted and
+the cycle now completes: `x := 1; RETURN; x := 2;` leaves `x = 1` and reports nothing. -/
+theorem c01_return_in_program_completes :
+    Wit.returnInProgram.accepted = true ∧ Strict Wit.returnInProgram = true ∧
+    Wit.firstCycle Wit.returnInProgram = (none, [("x", .i .dint 1)]) := by decide +kernel
 
 /-- **Counterexample (integer `**` with a negative exponent).** -/
 theorem c01_counterexample_pow :
@@ -166,11 +170,11 @@ theorem c01_counterexample_for_undeclared :
     (Wit.firstCycle Wit.forUndeclaredControl).1 = some (.fault .UndefinedVariable .readName) := by
   decide +kernel
 
-/-- **Counterexample (the ELSE branch of CASE is never type-checked).**  `IF d THEN` with
-`d : DINT` inside `CASE … ELSE` is accepted — and rejected as soon as the checker looks at the
-branch (`acceptedFixed`) — and ends in `ConditionNotBool`. -/
-theorem c01_counterexample_case_else :
-    Wit.caseElseCondition.accepted = true ∧ Wit.caseElseCondition.acceptedFixed = false ∧
+/-- **Regression fact (ELSE branch of CASE, fixed in 22a8b8f).**  `IF d THEN` with `d : DINT`
+inside `CASE … ELSE` is now rejected; the checker before the fix accepted it and the cycle ended in
+`ConditionNotBool`. -/
+theorem c01_case_else_now_rejected :
+    Wit.caseElseCondition.accepted = false ∧ Wit.caseElseCondition.acceptedBefore22a8b8f = true ∧
     (Wit.firstCycle Wit.caseElseCondition).1 = some (.fault .ConditionNotBool .condNotBool) := by
   decide +kernel
 
@@ -210,13 +214,11 @@ theorem c01_frames_balanced_s4 (p : StExt.XProgram) (fuel : Nat) (st : StExt.XRu
 example : Wit.callSample.accepted = true ∧
     Wit.firstXCycle Wit.callSample = (none, [("d", .i .dint 15)], 0) := by decide +kernel
 
-/-- **Counterexample (empty argument list).**  `d := F0()` for a FUNCTION whose only input has a
-default is accepted (a formal call for the checker) and faults with `InvalidArgumentCount`
-(a positional call for `prepare_bindings`). -/
-theorem c01_counterexample_call_empty_args :
+/-- **Regression fact (empty argument list, fixed in d406d2d).**  `d := F0()` for a FUNCTION whose
+only input has the default 5 binds like a formal call: `d = 5`, no fault, no frame. -/
+theorem c01_call_empty_args_binds_formally :
     Wit.callEmptyArgs.accepted = true ∧
-    (Wit.firstXCycle Wit.callEmptyArgs).1 = some (.fault .InvalidArgumentCount .callArgCount) := by
-  decide +kernel
+    Wit.firstXCycle Wit.callEmptyArgs = (none, [("d", .i .dint 5)], 0) := by decide +kernel
 
 /-- The full-strength statement over the accepted set does not hold of the model of the code as
 it is. -/
